@@ -6,6 +6,8 @@ Plain-data conventions (JSON specs): an ordinal value is an ``int`` (integer kin
 (string), ``'YYYY-MM-DD'`` (date) or ``'YYYY-MM-DDTHH:MM:SS'`` (timestamp); rows are ``[id, ordinal, val]``.
 """
 import datetime
+import pathlib
+import shutil
 import types
 import typing
 
@@ -14,6 +16,7 @@ from sqlalchemy import pool, sql
 
 from forml import flow, io, project, runtime
 from forml.io import asset, dsl, layout
+from forml.provider.feed import alchemy as stock
 from forml.provider.feed.reader import alchemy
 
 KINDS = ('integer', 'float', 'date', 'timestamp', 'string')
@@ -123,6 +126,21 @@ class Feed(io.Feed):
         return {TABLES[kind]: sql.table(f'ord_{kind}') for kind in KINDS}
 
 
+class StockFeed(stock.Feed):
+    """forml's stock ``alchemy`` feed (reader with the result cache) over the harness database; the result cache is
+    re-pointed to a fresh directory for every case (``fresh_results``), as a fresh FORML_HOME would."""
+
+    class Reader(stock.Feed.Reader):
+        """Stock reader with a replaceable cache."""
+
+        RESULTS = None
+
+    @classmethod
+    def fresh_results(cls, path) -> None:
+        shutil.rmtree(path, ignore_errors=True)
+        cls.Reader.RESULTS = stock.Results(pathlib.Path(path))
+
+
 class Database:
     """Private in-memory SQLite database holding ``ord_<kind>`` tables."""
 
@@ -132,6 +150,7 @@ class Database:
         )
         _META.create_all(self.engine)
         self.feed = Feed(self.engine)
+        self.stock = StockFeed({TABLES[kind]: f'ord_{kind}' for kind in KINDS}, connection=self.engine)
 
     def load(self, kind: str, rows: typing.Sequence[typing.Sequence]) -> None:
         """Replace the content of the table of the given ordinal kind."""
